@@ -9,8 +9,8 @@
    feature arrays with enabled flags (ModHash.hmod), imports with optional revision-date; the module sources the
    import callback serves.  The description: module-set `complete` with its module and import-only-module entries
    (name, revision, namespace, features), the single schema `complete`, content-id.
-   NOT modelled (the generated modules of the correspondence have none): deviations (always the empty list in
-   the description), submodule entries and locations, the datastore list (the C function creates none), the
+   Also: the deviation leaf-list (modules of deviated_by) and the submodule entries (name, revision) of every entry.
+   NOT modelled: locations, the datastore list (the C function creates none), the
    legacy modules-state list, compilation (so: modules implemented as a side effect of augments, deviations,
    leafref/when/must dependencies, LY_CTX_ALL_IMPLEMENTED / LY_CTX_REF_IMPLEMENTED), search directories.
    An import WITHOUT revision-date is resolved by the code through lys_get_module_without_revision() and a search
@@ -27,7 +27,9 @@ Definition mkey := (bytes * option bytes)%type.            (* module name, revis
 Record ymod := mkymod {
   y_mod : hmod;                 (* name, revision, implemented, features *)
   y_ns : bytes;                 (* mod->ns *)
-  y_imports : list import       (* mod->parsed->imports (read when the module is parsed) *)
+  y_imports : list import;      (* mod->parsed->imports (read when the module is parsed) *)
+  y_subs : list (bytes * option bytes);   (* mod->parsed->includes after injection: submodule name, revision *)
+  y_deps : list (import * bool) (* the imports whose module this module augments (false) or deviates (true) *)
 }.
 Definition ctx := list ymod.                                (* ctx->list, in order *)
 
@@ -46,8 +48,10 @@ Definition beq_key (a b : mkey) : bool := beq_bytes (fst a) (fst b) && beq_orev 
 
 (* ---- the description ---- *)
 Record yl_module := mkylm {
-  ym_name : bytes; ym_rev : option bytes; ym_ns : bytes; ym_features : list bytes; ym_deviations : list bytes }.
-Record yl_imp := mkyli { yi_name : bytes; yi_rev : bytes (* empty = none *); yi_ns : bytes }.
+  ym_name : bytes; ym_rev : option bytes; ym_ns : bytes; ym_features : list bytes; ym_deviations : list bytes;
+  ym_submodules : list (bytes * option bytes) }.
+Record yl_imp := mkyli { yi_name : bytes; yi_rev : bytes (* empty = none *); yi_ns : bytes;
+                         yi_submodules : list (bytes * option bytes) }.
 Record yl := mkyl {
   yl_set : bytes;                         (* module-set name *)
   yl_modules : list yl_module;            (* module entries, in document order *)
@@ -62,17 +66,32 @@ Definition s_complete : bytes := [99;111;109;112;108;101;116;101].        (* com
 Definition yl_features (m : ymod) : list bytes :=
   if y_impl m then enabled_names (concat (groups (y_mod m))) else [].
 
-Definition describe_module (m : ymod) : yl_module :=
-  mkylm (y_name m) (y_rev m) (y_ns m) (yl_features m) [].
+(* module d has a deviation of module m: one of its deviating imports names m (and its revision, if it has a
+   revision-date) *)
+Definition deviates (d m : ymod) : bool :=
+  existsb (fun e => snd e && beq_bytes (fst (fst e)) (y_name m) &&
+                    match snd (fst e) with Some r => beq_orev (Some r) (y_rev m) | None => true end) (y_deps d).
+
+(* ylib_deviation(): for an implemented module the names of the modules in mod->deviated_by.  lys_implement() of a
+   module with deviations registers it in deviated_by of its targets (lys_precompile_mod_augments_deviations), so
+   deviated_by holds the implemented modules of the context that deviate the module; the deviation leaf-list is
+   ordered by the system, the model lists the names in context order. *)
+Definition yl_deviations (c : list ymod) (m : ymod) : list bytes :=
+  if y_impl m then map y_name (filter (fun d => y_impl d && deviates d m) c) else [].
+
+(* ylib_submodules(): one submodule entry (name, revision) per element of the includes array, injected includes
+   too; the location leaf (file://path of a module read from a file) is not modelled *)
+Definition describe_module (c : list ymod) (m : ymod) : yl_module :=
+  mkylm (y_name m) (y_rev m) (y_ns m) (yl_features m) (yl_deviations c m) (y_subs m).
 Definition describe_imponly (m : ymod) : yl_imp :=
-  mkyli (y_name m) (match y_rev m with Some r => r | None => [] end) (y_ns m).
+  mkyli (y_name m) (match y_rev m with Some r => r | None => [] end) (y_ns m) (y_subs m).
 
 (* ly_ctx_get_yanglib_data(): the loop over ctx->list creates a module or an import-only-module list
    instance per module; list instances of one schema node stay together in the data tree, so all module
    entries precede all import-only-module entries *)
 Definition describe (cid : bytes) (c : ctx) : yl :=
   mkyl s_complete
-       (map describe_module (filter y_impl c))
+       (map (describe_module c) (filter y_impl c))
        (map describe_imponly (filter (fun m => negb (y_impl m)) c))
        (s_complete, [s_complete])
        cid.
@@ -92,7 +111,7 @@ Definition find_key (k : mkey) (l : list ymod) : option ymod := find (fun m => b
 Definition blank_feats (fs : list feat) : list feat := map (fun f => mkfeat (f_name f) false) fs.
 Definition blank_h (h : hmod) : hmod :=
   mkhmod (h_name h) (h_rev h) false (blank_feats (h_feats h)) (map blank_feats (h_subs h)).
-Definition blank (m : ymod) : ymod := mkymod (blank_h (y_mod m)) (y_ns m) (y_imports m).
+Definition blank (m : ymod) : ymod := mkymod (blank_h (y_mod m)) (y_ns m) (y_imports m) (y_subs m) (y_deps m).
 
 (* revision order of strcmp on dates, no revision first *)
 Definition rev_lt (a b : option bytes) : bool :=
@@ -204,15 +223,55 @@ Definition set_implemented (c : ctx) (k : mkey) (fs : fspec) : res ctx :=
       if negb (fspec_ok (y_mod m) fs) then Err E_FEATURE
       else if negb (y_impl m) && existsb (fun x => named (fst k) x && y_impl x) c then Err E_DENIED
       else Ok (map (fun x => if beq_key k (key_of x)
-                             then mkymod (apply_fspec (y_mod x) true fs) (y_ns x) (y_imports x) else x) c)
+                             then mkymod (apply_fspec (y_mod x) true fs) (y_ns x) (y_imports x) (y_subs x) (y_deps x)
+                             else x) c)
   end.
+
+(* lys_implement() -> lys_precompile_augments_deviations(): the modules that an implemented module augments or
+   deviates are implemented too (their features are left as they are), and so on for their own targets *)
+Definition target_key (c : ctx) (i : import) : option mkey :=
+  match snd i with
+  | Some r => match find_key (fst i, Some r) c with Some m => Some (key_of m) | None => None end
+  | None => match filter (named (fst i)) c with [m] => Some (key_of m) | _ => None end
+  end.
+Definition targets (c : ctx) (m : ymod) : list mkey :=
+  flat_map (fun e => match target_key c (fst e) with Some k => [k] | None => [] end) (y_deps m).
+Definition mark_impl (k : mkey) (c : ctx) : ctx :=
+  map (fun x => if beq_key k (key_of x)
+                then mkymod (apply_fspec (y_mod x) true F_keep) (y_ns x) (y_imports x) (y_subs x) (y_deps x) else x) c.
+Fixpoint implement_targets (fuel : nat) (c : ctx) (todo : list mkey) : ctx :=
+  match fuel with
+  | O => c
+  | S f =>
+      match todo with
+      | [] => c
+      | k :: r =>
+          match find_key k c with
+          | None => implement_targets f c r
+          | Some m => if y_impl m then implement_targets f c r
+                      else implement_targets f (mark_impl k c) (r ++ targets c m)
+          end
+      end
+  end.
+Definition deps_fuel (c : ctx) : nat := S (length c + length (flat_map y_deps c)) * 2.
+Definition implement_deps (c : ctx) (k : mkey) : ctx :=
+  match find_key k c with
+  | Some m => implement_targets (deps_fuel c + length (y_deps m)) c (targets c m)
+  | None => c
+  end.
+(* a context given by its records: every implemented module has its targets implemented *)
+Definition settle (c : ctx) : ctx := fold_left (fun c1 m => if y_impl m then implement_deps c1 (key_of m) else c1) c c.
 
 (* ly_ctx_load_module(ctx, name, revision, features) *)
 Definition load_module (fuel : nat) (src : list ymod) (c : ctx) (name : bytes) (rev : option bytes)
     (fs : fspec) : res ctx :=
   match parse_load fuel src [] c (name, rev) with
   | Err e => Err e
-  | Ok (c1, k) => set_implemented c1 k fs
+  | Ok (c1, k) =>
+      match set_implemented c1 k fs with
+      | Err e => Err e
+      | Ok c2 => Ok (implement_deps c2 k)
+      end
   end.
 
 (* ly_ctx_new_yldata(): every module entry of the first module-set is loaded with its revision and features;
@@ -333,35 +392,35 @@ Definition initial_ctx : ctx := [
   (* ietf-yang-metadata@2016-08-05 *)
   mkymod (mkhmod [105;101;116;102;45;121;97;110;103;45;109;101;116;97;100;97;116;97]
     (Some [50;48;49;54;45;48;56;45;48;53]) false [] [])
-    [117;114;110;58;105;101;116;102;58;112;97;114;97;109;115;58;120;109;108;58;110;115;58;121;97;110;103;58;105;101;116;102;45;121;97;110;103;45;109;101;116;97;100;97;116;97] [];
+    [117;114;110;58;105;101;116;102;58;112;97;114;97;109;115;58;120;109;108;58;110;115;58;121;97;110;103;58;105;101;116;102;45;121;97;110;103;45;109;101;116;97;100;97;116;97] [] [] [];
   (* yang@2022-06-16 *)
   mkymod (mkhmod [121;97;110;103]
     (Some [50;48;50;50;45;48;54;45;49;54]) true [] [])
-    [117;114;110;58;105;101;116;102;58;112;97;114;97;109;115;58;120;109;108;58;110;115;58;121;97;110;103;58;49] [];
+    [117;114;110;58;105;101;116;102;58;112;97;114;97;109;115;58;120;109;108;58;110;115;58;121;97;110;103;58;49] [] [] [];
   (* ietf-inet-types@2013-07-15 *)
   mkymod (mkhmod [105;101;116;102;45;105;110;101;116;45;116;121;112;101;115]
     (Some [50;48;49;51;45;48;55;45;49;53]) false [] [])
-    [117;114;110;58;105;101;116;102;58;112;97;114;97;109;115;58;120;109;108;58;110;115;58;121;97;110;103;58;105;101;116;102;45;105;110;101;116;45;116;121;112;101;115] [];
+    [117;114;110;58;105;101;116;102;58;112;97;114;97;109;115;58;120;109;108;58;110;115;58;121;97;110;103;58;105;101;116;102;45;105;110;101;116;45;116;121;112;101;115] [] [] [];
   (* ietf-yang-types@2013-07-15 *)
   mkymod (mkhmod [105;101;116;102;45;121;97;110;103;45;116;121;112;101;115]
     (Some [50;48;49;51;45;48;55;45;49;53]) false [] [])
-    [117;114;110;58;105;101;116;102;58;112;97;114;97;109;115;58;120;109;108;58;110;115;58;121;97;110;103;58;105;101;116;102;45;121;97;110;103;45;116;121;112;101;115] [];
+    [117;114;110;58;105;101;116;102;58;112;97;114;97;109;115;58;120;109;108;58;110;115;58;121;97;110;103;58;105;101;116;102;45;121;97;110;103;45;116;121;112;101;115] [] [] [];
   (* ietf-yang-schema-mount@2019-01-14 *)
   mkymod (mkhmod [105;101;116;102;45;121;97;110;103;45;115;99;104;101;109;97;45;109;111;117;110;116]
     (Some [50;48;49;57;45;48;49;45;49;52]) true [] [])
-    [117;114;110;58;105;101;116;102;58;112;97;114;97;109;115;58;120;109;108;58;110;115;58;121;97;110;103;58;105;101;116;102;45;121;97;110;103;45;115;99;104;101;109;97;45;109;111;117;110;116] [];
+    [117;114;110;58;105;101;116;102;58;112;97;114;97;109;115;58;120;109;108;58;110;115;58;121;97;110;103;58;105;101;116;102;45;121;97;110;103;45;115;99;104;101;109;97;45;109;111;117;110;116] [] [] [];
   (* ietf-yang-structure-ext@2020-06-17 *)
   mkymod (mkhmod [105;101;116;102;45;121;97;110;103;45;115;116;114;117;99;116;117;114;101;45;101;120;116]
     (Some [50;48;50;48;45;48;54;45;49;55]) false [] [])
-    [117;114;110;58;105;101;116;102;58;112;97;114;97;109;115;58;120;109;108;58;110;115;58;121;97;110;103;58;105;101;116;102;45;121;97;110;103;45;115;116;114;117;99;116;117;114;101;45;101;120;116] [];
+    [117;114;110;58;105;101;116;102;58;112;97;114;97;109;115;58;120;109;108;58;110;115;58;121;97;110;103;58;105;101;116;102;45;121;97;110;103;45;115;116;114;117;99;116;117;114;101;45;101;120;116] [] [] [];
   (* ietf-datastores@2018-02-14 *)
   mkymod (mkhmod [105;101;116;102;45;100;97;116;97;115;116;111;114;101;115]
     (Some [50;48;49;56;45;48;50;45;49;52]) true [] [])
-    [117;114;110;58;105;101;116;102;58;112;97;114;97;109;115;58;120;109;108;58;110;115;58;121;97;110;103;58;105;101;116;102;45;100;97;116;97;115;116;111;114;101;115] [];
+    [117;114;110;58;105;101;116;102;58;112;97;114;97;109;115;58;120;109;108;58;110;115;58;121;97;110;103;58;105;101;116;102;45;100;97;116;97;115;116;111;114;101;115] [] [] [];
   (* ietf-yang-library@2019-01-04 *)
   mkymod (mkhmod [105;101;116;102;45;121;97;110;103;45;108;105;98;114;97;114;121]
     (Some [50;48;49;57;45;48;49;45;48;52]) true [] [])
-    [117;114;110;58;105;101;116;102;58;112;97;114;97;109;115;58;120;109;108;58;110;115;58;121;97;110;103;58;105;101;116;102;45;121;97;110;103;45;108;105;98;114;97;114;121] []
+    [117;114;110;58;105;101;116;102;58;112;97;114;97;109;115;58;120;109;108;58;110;115;58;121;97;110;103;58;105;101;116;102;45;121;97;110;103;45;108;105;98;114;97;114;121] [] [] []
 ].
 
 (* the observable the property compares: the ModHash records in context order *)
